@@ -35,16 +35,30 @@ Theorem C06_cast_interface_delivers :
 Proof. exact cast_interface_delivers. Qed.
 Print Assumptions C06_cast_interface_delivers.
 
-(* the template as it is casts to the PARAMETER type: a term type that is
-   assignable but not identical to a non-interface parameter type yields the
-   zero value (refuted); casting to the TERM's type always delivers *)
+(* values flow: for every accepted binding, every action parameter holds exactly
+   the value produced for its term (the repaired template asserts the TERM's type
+   and lets the call convert) *)
+Theorem C06_values_flow :
+  forall o tok err rules prods ms b rtl,
+    assign_actions o tok err rules prods ms = BOk b rtl ->
+    forall pi p, nth_error prods pi = Some p -> kind_of rules (bp_rule p) = NotGenerated ->
+      exists m, In m ms /\ In (pi, m_id m) b /\ accepts o tok err rtl m p /\
+        (forall vs, Forall2 (produced_for o tok err rtl) (bp_terms p) vs ->
+           length vs = length (m_params m) /\ action_args o tok err rtl (bp_terms p) vs = vs).
+Proof. exact values_flow. Qed.
+Print Assumptions C06_values_flow.
+
+(* the template of the pinned tree asserted the PARAMETER type: a term type that
+   is assignable but not identical to a non-interface parameter type yielded the
+   zero value (witness kept; repaired by a fix: commit) *)
 Theorem C06_cast_zero_refuted :
   assign_actions ex_o 10 11 ex_rules ex_prods [ex_on_s; ex_on_x] =
     BOk [(1, 0); (2, 1)] [(1, 0); (2, 0); (3, 1)] /\
   assignable ex_o 1 (nth 0 (m_params ex_on_s) 0) = true /\
   is_interface ex_o 2 = false /\ identical ex_o 1 2 = false /\
-  (forall x, param_value ex_o ex_on_s 0 (DVal 1 x) = DZero 2) /\
-  (forall x, param_value_repaired ex_o 1 (DVal 1 x) = DVal 1 x).
+  (forall x, param_value_old ex_o ex_on_s 0 (DVal 1 x) = DZero 2) /\
+  (forall x, param_value ex_o 1 (DVal 1 x) = DVal 1 x) /\
+  (forall x, action_args ex_o 10 11 [(1, 0); (2, 0); (3, 1)] [(false, 3)] [DVal 1 x] = [DVal 1 x]).
 Proof. exact cast_zero_refuted. Qed.
 Print Assumptions C06_cast_zero_refuted.
 Theorem C06_cast_to_term_type_delivers :
